@@ -2,7 +2,7 @@
    of DE.AbstractRaft, on which election safety, log matching, leader completeness and state machine safety are proved.
    Used by the cluster-level checks C01, C04, C05. Nothing else lives here. *)
 From Coq Require Import NArith List.
-From DE Require Import Val Election BufLog PLog AbstractRaft proofs.C02 proofs.AR_bridge.
+From DE Require Import Val Election BufLog PLog AbstractRaft proofs.C02 proofs.C07 proofs.AR_bridge.
 Import ListNotations.
 Open Scope N_scope.
 
@@ -36,3 +36,13 @@ Theorem Bridge_commit_count_gives_majority : forall (self : N) (voters : list N)
   exists vs, majority (self :: voters) vs /\ forall v, In v vs -> v = self \/ (In v voters /\ c <= m v).
 Proof. exact commit_count_gives_majority. Qed.
 Print Assumptions Bridge_commit_count_gives_majority.
+
+(* what a leader builds (C07.built_from; the leader side of C08) is a slice of its log with the log's term at prev:
+   the premises of SAppendAccept *)
+Theorem Bridge_leader_request_is_slice : forall L prev pterm es,
+  pb_idx L = 0 -> contig 1 (pents L) -> built_from L prev pterm es ->
+  map fg es = slice (map fg (pents L)) prev (N.of_nat (length es)) /\
+  prev + N.of_nat (length es) <= N.of_nat (length (pents L)) /\
+  term_at (map fg (pents L)) prev = pterm.
+Proof. exact leader_request_is_slice. Qed.
+Print Assumptions Bridge_leader_request_is_slice.
